@@ -52,7 +52,7 @@ def run_scenario(chk, sc, cfgseed, dtype, axes, flavour="sched", workers=None):
                 shuffle=lambda lv, f, v: rng.sample(v, len(v)))
     # integer grids: values that the integer type can hold (the conversion of NaN / inf / 1e300 to an integer is undefined)
     flds = lattice.Fields(lat, cfgseed, payload="wild" if cfgseed % 2 and not dtype.startswith("int") else "tame")
-    d = chk.tmp()
+    d = chk.tmp_reuse()
     os.makedirs(d)
     src, out = os.path.join(d, "plt00010"), os.path.join(d, "grid")
     gamma.write_plotfile(src, ap, cfg_, values=flds.values)
